@@ -87,7 +87,7 @@ def _exotic(kind, which):
     if kind == "pickle":
         dd = dict(d)
         dd.update({"tup": (1, 2, ("a",)) if which == 1 else (1, 3, ("b",), ()), "bytes": b"by\x00\xfftes\n" if which == 1 else b"by\x00tez",
-                   "byteseq": b"same", "none": None if which == 1 else 0, "nest": [(1,), (2, 3)] if which == 1 else [(1, 2), ()],
+                   "byteseq": b"same", b"bytes key": 1 if which == 1 else 2, b"bk2": "v", "none": None if which == 1 else 0, "nest": [(1,), (2, 3)] if which == 1 else [(1, 2), ()],
                    5: "int key", None: "none key", "set": {1} if which == 1 else {2}, "fs": frozenset([1])})
         return pickle.dumps(dd)
     raise ValueError(kind)
